@@ -14,6 +14,10 @@ import (
 
 type prop struct{}
 
+const perClassCap = 5
+
+var classCount = map[string]int{}
+
 func New() core.Prop { return prop{} }
 
 func (prop) ID() string { return "C04" }
@@ -95,6 +99,15 @@ func parseCase(line string) (nk int, progs [][]op, sched []int, ok bool) {
 }
 
 func (prop) Run(line string) core.Outcome {
+	if strings.HasPrefix(line, "stress ") {
+		var f []string
+		for _, x := range strings.Split(line, " ") {
+			if x != "" {
+				f = append(f, x)
+			}
+		}
+		return runStress(f)
+	}
 	nk, progs, sched, ok := parseCase(line)
 	if !ok {
 		return core.Outcome{Impl: "bad-op", Tags: []string{"malformed", "trivial"}}
@@ -173,7 +186,22 @@ func (prop) Run(line string) core.Outcome {
 		}
 		o.finish(end, c)
 	}
-	out := core.Outcome{Impl: strings.Join(toks, ";"), Failures: o.fails}
+	out := core.Outcome{Impl: strings.Join(toks, ";")}
+	// core keeps only the first 200 failures of a stream: report each class a few times only, so
+	// that a frequent (known) class cannot crowd out a rare new one
+	seenInCase := map[string]bool{}
+	for _, f := range o.fails {
+		if seenInCase[f.Class] {
+			continue
+		}
+		seenInCase[f.Class] = true
+		classCount[f.Class]++
+		if classCount[f.Class] <= perClassCap {
+			out.Failures = append(out.Failures, f)
+		} else {
+			out.Tags = append(out.Tags, "oracle-failure-again:"+f.Class)
+		}
+	}
 	for t := range o.tags {
 		out.Tags = append(out.Tags, t)
 	}
